@@ -165,6 +165,8 @@ def run(prop, tier, seed, ws, directives, args, t_start):
         opts["job_seconds"] = 15
         max_paths = int(dv.get("max_paths", 400000 if tier == "quick" else 3000000))
         budget_s = float(dv.get("budget_s", 900 if tier == "quick" else 3600))
+        if tier == "thorough" and "budget_thorough_s" in dv:
+            budget_s = float(dv["budget_thorough_s"])
         D.OPTS = opts
         r = D.explore(prog, init, fid, opts, pool, max_paths=max_paths, deadline=time.time() + budget_s)
         results.append(r)
